@@ -59,6 +59,9 @@ var c10Runs = []c10RunSpec{
 	{Name: "JSON output of a mutated document", Prog: `{ $.z = [$.b, {q: 1, p: 2}]; $.a.push(9) }`, Input: `{"b":"s","a":[1]}`, HasIn: true, Root: true},
 	{Name: "variables named like the builtins", Prog: `BEGIN { num = 5; json = "x"; for (printf in [1, 2]) { } print num, json, printf }`},
 	{Name: "the builtins", Prog: `BEGIN { print num("12.5"), num("x"), json([1, {a: null}]); printf("%s|%3v\n", "s", 7) }`},
+	{Name: "object whose keys collide under numeric comparison", Prog: `{ print; for (k, v in $) print k, v }`, Input: `{"7":1,"07":2,"1":3,"01":4,"+1":5,"10":6,"1a":7,"9":8,"a":9,"A":10,"1.0":11,"1e0":12}`, HasIn: true},
+	{Name: "printf failing after literal text", Prog: `{ printf("user=%s|%5v|\n", $.id, 1) }`, Input: `[{"id":"u1"},{"id":7}]`, HasIn: true},
+	{Name: "print, json and printf of numbers", Prog: `{ print $, $ * 1; printf("%f %v|%s\n", $, $, json([$])) }`, Input: `[0,-0,1.5,100000000000000000000,0.000001]`, HasIn: true},
 	{Name: "length of a fresh three-key object literal", Prog: `BEGIN { print {a: 1, b: 2, c: 3}.length(), "x".length(), [].length() }`},
 }
 
@@ -316,16 +319,16 @@ func init() {
 	n := len(c10Runs)
 	fw.Register(&fw.Prop{
 		ID: "C10",
-		Rule: "alphabet of 18 runs that touch every piece of process-global state (method lookups on all four prototypes, nested and failing method calls, a method cell called without a fresh lookup, depth and loop limits, syntax and JSON errors, selectors, a 12-key object, JSON output); " +
+		Rule: "alphabet of 21 runs that touch every piece of process-global state (method lookups on all four prototypes, nested and failing method calls, a method cell called without a fresh lookup, depth and loop limits, syntax and JSON errors, selectors, a 12-key object, JSON output); " +
 			"(i) explicit-state breadth-first search over run histories with the fingerprint of the package-level state (hook VerifGlobals) as state: from every reachable state every run is executed and compared with its fresh-process result, until the reachable set closes; " +
 			"(ii) every history of <= L runs in its own fresh process without any reset, every run compared with (iii); (iii) each run as the first run of a fresh process, 25 times, plus 24 in-process repetitions and 12 invocations of the real binary: all byte-identical; " +
 			"the package-level variables of /repo/src are listed with go/parser on every run: one that is neither fingerprinted nor reviewed as never-assigned withdraws the closure argument (recorded, never an alarm); states = global-state fingerprints reached; non-trivial = same",
 		Plan: func(t fw.Tier) int { return 1 + n + n*n },
 		Bound: func(t fw.Tier) string {
 			if t == fw.Thorough {
-				return "global-state graph closed; all histories of <= 4 runs over 18 runs, each in a fresh process"
+				return "global-state graph closed; all histories of <= 4 runs over 21 runs, each in a fresh process"
 			}
-			return "global-state graph closed; all histories of <= 3 runs over 18 runs, each in a fresh process"
+			return "global-state graph closed; all histories of <= 3 runs over 21 runs, each in a fresh process"
 		},
 		Assumptions: []string{"no model: the oracle is equality with the fresh-process execution", "Go's map iteration randomisation is not controlled: 12-key objects and 24+ repetitions make an order-dependent output differ with overwhelming probability", "the closure argument of (i) assumes VerifGlobals sees all mutable package-level state; the go/parser scan withdraws it otherwise"},
 		Run: func(c *fw.Ctx, u int) {
